@@ -70,6 +70,23 @@ func finish(run *PropRun) int {
 		}
 	}
 
+	// witnesses of static (non-path) obligations are replayed through a harness too
+	for _, x := range run.Extra {
+		if x.Witness == "" || x.WitnessHarness == "" {
+			continue
+		}
+		nFind++
+		bs := make([]int, len(x.Witness))
+		for i := 0; i < len(x.Witness); i++ {
+			bs[i] = int(x.Witness[i])
+		}
+		rf := &ReplayFile{Property: id, Pkg: x.WitnessPkg, Harness: x.WitnessHarness, Script: []ScriptEntry{{K: "s", S: bs}}, Params: map[string]int{},
+			Kind: "assert", Label: x.Name + " witness", Expect: "violation"}
+		p := filepath.Join(replayDir, fmt.Sprintf("%s-%s-%d.json", id, x.WitnessHarness, nFind))
+		writeJSON(p, rf)
+		jobsByPkg[x.WitnessPkg] = append(jobsByPkg[x.WitnessPkg], job{p, rf})
+	}
+
 	var violations, known, unconfirmed []confirmed
 	tracesValidated, traceMismatch := 0, 0
 	var replayErrs []string
@@ -160,7 +177,9 @@ func finish(run *PropRun) int {
 	for _, c := range unconfirmed {
 		fmt.Printf("WARNING unconfirmed counterexample (does not reproduce natively: %q) harness=%s label=%q - obligation inconclusive\n", c.outcome, c.rf.Harness, c.rf.Label)
 		run.Inconclusive = append(run.Inconclusive, fmt.Sprintf("unconfirmed counterexample in %s: %s (native outcome %q)", c.rf.Harness, c.rf.Label, c.outcome))
-		os.Remove(c.file)
+		if os.Getenv("VP_KEEP") == "" {
+			os.Remove(c.file)
+		}
 	}
 	extraViol := 0
 	for _, x := range run.Extra {
